@@ -305,3 +305,6 @@ impl ZmijBuffer {
 #[verifier::external_body] pub struct SerVal { _p: () }
 #[verifier::external_body]
 fn ser_value<'a>(v: SerVal, ser: &mut YamlSerializer<'a>) -> (r: Result<(), SerError>) { unimplemented!() }
+/// `scalar_key_to_string(variant, yaml_12)` for a variant name (F43; the text itself: KeyScalarSink::serialize_str, under contract above)
+#[verifier::external_body]
+fn variant_key_text(key: &str, yaml_12: bool) -> (r: Result<String, SerError>) { unimplemented!() }
